@@ -79,10 +79,10 @@ def check(run, prog):
     for f in (f_lin, f_cir, f_stk, f_int, f_get):
         run.touched(f)
 
-    def mk(pol, backend="numpy", extra=()):
+    def mk(pol, backend="numpy", extra=(), dtype="complex128"):
         shape = (N, NCHAN, sp.Integer(2)) + tuple(extra)
-        return make_signal(prog, "DualPolarizationSignal", data=pol_data(backend=backend, shape=shape),
-                           pol_type=pol, backend=backend, extra=extra)
+        return make_signal(prog, "DualPolarizationSignal", data=pol_data(backend=backend, shape=shape, dtype=dtype),
+                           pol_type=pol, backend=backend, extra=extra, dtype=dtype)
 
     def call(fi, z, *args):
         ev = ck.evaluator()
@@ -98,12 +98,14 @@ def check(run, prog):
                 return None
         return out
 
-    variants = [("numpy", ()), ("dask", (sp.Integer(4),))] if run.tier == "quick" else \
-        [("numpy", ()), ("dask", ()), ("numpy", (sp.Integer(3),)), ("dask", (sp.Symbol("K", integer=True, positive=True),))]
-    for backend, extra in variants:
-        tag = f"[{backend}{', trailing dims' if extra else ''}]"
+    # both complex widths: complex128 and complex64 data go through the same formulas (a width-dependent constant is a different formula)
+    variants = [("numpy", (), "complex128"), ("dask", (sp.Integer(4),), "complex64")] if run.tier == "quick" else \
+        [("numpy", (), "complex128"), ("dask", (), "complex64"), ("numpy", (sp.Integer(3),), "complex64"),
+         ("dask", (sp.Symbol("K", integer=True, positive=True),), "complex128")]
+    for backend, extra, cdtype in variants:
+        tag = f"[{backend}, {cdtype}{', trailing dims' if extra else ''}]"
         # ---------------------------------------------------------------- R1 conversions
-        zl, zc = mk("linear", backend, extra), mk("circular", backend, extra)
+        zl, zc = mk("linear", backend, extra, cdtype), mk("circular", backend, extra, cdtype)
         X, Y = A, B
         out = call(f_cir, zl)
         if out is not None:
